@@ -145,6 +145,10 @@ LEMMAS = c07_handlers.LEMMAS + [Lemma("mc3-roundtrip", _mc_roundtrip, "render_mc
 from contracts import misc_quick as _mq  # noqa: E402
 
 CONTRACTS += [_mq.sun_to_string]
+from contracts import c12 as _c12  # noqa: E402
+
+# scrypt's $7$ strings render block size / parallelism with the 30-bit hash64 integer codec (shared with C12)
+CONTRACTS += [c for c in _c12.CONTRACTS if c.id.startswith(("encode_int30", "decode_int30"))]
 BOUNDED = [Bounded("c07", "harness/c07.py", descr="parse/render round trips of every hasher; libpass inspect/PHC", timeout=900)]
 
 MUTANTS = [
